@@ -2,10 +2,13 @@
    iv_event_register / unregister, and do_action for the event / raw-event actions. *)
 From Coq Require Import List ZArith Bool Lia.
 From Ivv Require Import Core.Kernel Core.CoreTypes Core.CoreFd Core.CoreModel Core.CoreSpec
-  Core.CoreInvBase Core.CoreInvDefs Core.CoreInvFd Core.CoreInvPoll Core.CoreInvReg Core.CoreInvObj Core.CoreInvAct.
+  Core.CoreInvBase Core.CoreInvDefs Core.CoreInvFd Core.CoreInvPoll Core.CoreInvReg Core.CoreInvObj Core.CoreInvAct Core.CoreInvActR.
 From Ivv Require Timer.HeapModel Timer.HeapSpec.
 Import ListNotations.
 Local Open Scope Z_scope.
+
+Section OffsetB.
+Variable dA : Z.
 
 (* ---------- the kick descriptor of the epoll methods (event_rx_on / event_rx_off) ---------- *)
 Record kicksame (s s' : core) : Prop := {
@@ -17,7 +20,7 @@ Record kicksame (s s' : core) : Prop := {
   kk_trace : trace s' = trace s; kk_evc : ev_count s' = ev_count s;
 }.
 
-Lemma kick_install : forall s s' fd wr k', InvE s -> is_epoll s = true -> active_ref s = 0 ->
+Lemma kick_install : forall s s' fd wr k', InvE dA s -> is_epoll s = true -> active_ref s = 0 ->
   kicksame s s' -> active_fd s' = fd -> active_ref s' = 1 -> active_wr s' = wr -> kern s' = k' ->
   numobjs s' = numobjs s + 1 ->
   1000 <= fd ->
@@ -26,12 +29,14 @@ Lemma kick_install : forall s s' fd wr k', InvE s -> is_epoll s = true -> active
   ep_find (ep (kern s)) fd = false ->
   (forall j, rw_reg s j = true -> rw_rfd s j <> fd) ->
   kctl (kern s) k' -> ep k' = ep (kern s) ++ [ctl_ent fd 0 (-1)] ->
-  InvE s'.
+  InvE dA s'.
 Proof.
   intros s s' fd wr k' [A B C D E G H] EP AR0 KS AF AR AW KE NO F1000 KIND INJ ABS RAWS KC EPK.
   assert (EE : is_epoll s' = true) by (unfold is_epoll in *; rewrite (kk_method _ _ KS); assumption).
-  assert (OPN : exists v, k_open (kern s) fd = Some v /\ (vkind v = K_EVENTFD \/ vkind v = K_PIPE_R)).
-  { destruct KIND as [((v & V1 & V2) & _)|(_ & _ & v & vw & V1 & V2 & _)]; exists v; tauto. }
+  assert (OPN : exists v, k_open (kern s) fd = Some v /\
+                  ((vkind v = K_EVENTFD /\ wr = -1) \/ (vkind v = K_PIPE_R /\ wr <> -1))).
+  { destruct KIND as [((v & V1 & V2) & W)|(_ & W & v & vw & V1 & V2 & _)]; exists v; split; try assumption;
+      [left; tauto|right; split; [assumption|lia]]. }
   assert (LV : forall k0, live s' (-1) k0 <-> live s (-1) k0) by (intros; unfold live; rewrite (kk_fdt _ _ KS); tauto).
   constructor.
   - eapply FdInv_rebuild_ep with (s := s); try eassumption; try apply KS.
@@ -107,7 +112,7 @@ Proof.
 Qed.
 
 Definition RxOnPost (s s' : core) : Prop :=
-  InvE s' /\ Fr s s' /\ active_ref s' = 1 /\ numobjs s' = numobjs s + 1 /\
+  InvE dA s' /\ Fr s s' /\ active_ref s' = 1 /\ numobjs s' = numobjs s + 1 /\
   ev_pending s' = ev_pending s /\ ev_batch s' = ev_batch s /\ ev_count s' = ev_count s /\
   ev_reg s' = ev_reg s /\ use_raw s' = use_raw s /\ method s' = method s /\ rw_reg s' = rw_reg s.
 
@@ -120,7 +125,7 @@ Definition rx_on_tail (s : core) : res * bool :=
   | Some _ => (R s, true)
   end.
 
-Lemma rx_on_tail_ok : forall s0 sm s fd wr, InvE sm -> is_epoll sm = true -> active_ref sm = 0 ->
+Lemma rx_on_tail_ok : forall s0 sm s fd wr, InvE dA sm -> is_epoll sm = true -> active_ref sm = 0 ->
   kicksame sm s -> active_fd s = fd -> active_ref s = 0 -> active_wr s = wr -> kern s = kern sm ->
   numobjs s = numobjs sm -> ev_pending s = ev_pending sm -> ev_batch s = ev_batch sm -> ev_reg s = ev_reg sm ->
   use_raw s = use_raw sm -> epoch s = epoch sm -> tepoch s = tepoch sm ->
@@ -144,7 +149,7 @@ Proof.
   rewrite (ctl_pure_add _ _ _ _ OP ABS) in *. cbn [fst snd] in *. rewrite CR. cbn [fst snd].
   split; [reflexivity|]. cbn [okr].
   set (sF := set_numobjs (set_kern s1 k') (numobjs (set_kern s1 k') + 1)).
-  assert (IF : InvE sF).
+  assert (IF : InvE dA sF).
   { apply (kick_install sm sF fd wr k' I EP AR0); try assumption; try reflexivity.
     - destruct KS. constructor; subst sF s1; sp; assumption.
     - subst sF s1. sp. rewrite AR. reflexivity.
@@ -153,8 +158,321 @@ Proof.
   - eapply Fr_trans; [exact F0|]. destruct KC as (_&_&_&NW&_).
     constructor; subst sF s1; sp; rewrite ?(kk_heap _ _ KS), ?(kk_active _ _ KS), ?(kk_handled _ _ KS), ?(kk_cur _ _ KS), ?E2, ?E5;
       try reflexivity; try lia; try tauto.
-    + assumption.
     + rewrite (tmeasure_same sm); [lia|sp; apply (kk_cur _ _ KS)|sp; assumption|sp; assumption].
   - subst sF s1. sp. rewrite AR, NO, N0, E1, E2, (kk_evc _ _ KS), E3, E4, (kk_method _ _ KS), (kk_rr _ _ KS).
     repeat split; try assumption; try lia.
+Qed.
+
+Definition rx_on_open (s : core) : res :=
+  match eventfd_grab (kern s) (efd_epoll s) with
+  | (k1, inl fd, u) =>
+      let '(k2, _) := k_write k1 fd 8 1 in
+      R (set_activefd (set_efd (set_kern s k2) u (efd_raw s)) fd (active_ref s))
+  | (k1, inr _, u) =>
+      let s := set_efd (set_kern s k1) u (efd_raw s) in
+      match k_pipe (kern s) with
+      | (k2, Some (r, w)) =>
+          let '(k3, wr) := k_write k2 w 1 0 in
+          match wr with
+          | inl _ => R (set_activewr (set_activefd (set_kern s k3) r (active_ref s)) w)
+          | inr _ => halt (set_kern s k3) TFatal
+          end
+      | (k2, None) => halt (set_kern s k2) TFatal
+      end
+  end.
+
+Lemma event_rx_on_unfold : forall s, active_ref s = 0 ->
+  event_rx_on s = match rx_on_open s with Halt s => (Halt s, true) | R s => rx_on_tail s end.
+Proof. intros s H. unfold event_rx_on, rx_on_open, rx_on_tail. rewrite H. reflexivity. Qed.
+
+Lemma pipe_write_ok : forall k r w, k_open k r = Some (with_peer (vfd0 K_PIPE_R) w true) ->
+  k_open k w = Some (with_peer (vfd0 K_PIPE_W) r true) ->
+  exists n, snd (k_write k w 1 0) = inl n.
+Proof.
+  intros k r w OR OW. unfold k_write. rewrite OW. cbn [vkind with_peer vfd0 vpeer_open vpeer negb].
+  change (K_PIPE_W =? K_EVENTFD) with false. change (K_PIPE_W =? K_PIPE_W) with true. cbv iota.
+  apply k_open_get in OR. destruct OR as [GR _]. rewrite GR. cbn [vcnt with_peer vfd0].
+  change (Z.min 1 (65536 - 0) <=? 0) with false. cbv iota. eexists. reflexivity.
+Qed.
+
+Lemma event_rx_on_ok : forall s, InvE dA s -> is_epoll s = true -> active_ref s = 0 ->
+  snd (event_rx_on s) = false /\ okr (RxOnPost s) (fst (event_rx_on s)).
+Proof.
+  intros s I EP AR0. rewrite (event_rx_on_unfold s AR0). unfold rx_on_open.
+  pose proof (ms_kinv _ (ie_misc _ _ I)) as KI. pose proof (KInv_kfresh _ KI) as KF.
+  pose proof (grab_any (kern s) (efd_epoll s) KF) as GA.
+  pose proof (dy_actwr _ (ie_dyn _ _ I) AR0) as AW0.
+  destruct (fresh_hyps dA s (next_fd (kern s)) I ltac:(lia)) as (H1 & H2 & H3 & _).
+  assert (RAWS : forall fd, next_fd (kern s) <= fd -> forall j, rw_reg s j = true -> rw_rfd s j <> fd).
+  { intros fd N j J Q. destruct (raw_facts dA s j I J) as (_ & RK & FN & _). cbv zeta in *.
+    destruct (fresh_hyps dA s fd I N) as (_ & Q2 & _). apply (Q2 _ RK). congruence. }
+  destruct (eventfd_grab (kern s) (efd_epoll s)) as [[k1 [fd|e]] u].
+  - destruct GA as (-> & KS1 & KF1 & O1).
+    pose proof (kstable_write k1 (next_fd (kern s)) 8 1) as KS2.
+    destruct (k_write k1 (next_fd (kern s)) 8 1) as [k2 wr]. cbn [fst] in KS2.
+    pose proof (kstable_trans _ _ _ KS1 KS2) as KS.
+    set (sm := set_kern s k2).
+    assert (IM : InvE dA sm) by (apply InvE_kstable; assumption).
+    destruct (kstable_open _ _ _ _ KS2 O1) as (v' & O2 & Q). destruct (Q H1) as (Q1 & _).
+    apply (rx_on_tail_ok s sm _ (next_fd (kern s)) (-1) IM EP AR0); try reflexivity; try assumption.
+    + constructor; reflexivity.
+    + left. split; [|reflexivity]. exists v'. split; [exact O2|rewrite Q1; reflexivity].
+    + subst sm. sp. rewrite (kt_ep _ _ KS). exact H3.
+    + apply RAWS. lia.
+    + apply Fr_set_kern. apply (kt_nwait _ _ KS).
+  - subst k1. sp.
+    pose proof (pipe_spec (kern s) KF) as PS. destruct (k_pipe (kern s)) as [k2 [[r w]|]].
+    + destruct PS as (EM & -> & -> & KS1 & KF1 & OR & OW).
+      destruct (pipe_write_ok k2 _ _ OR OW) as (n & WR).
+      pose proof (kstable_write k2 (next_fd (kern s) + 1) 1 0) as KS2.
+      destruct (k_write k2 (next_fd (kern s) + 1) 1 0) as [k3 wr]. cbn [fst snd] in *. subst wr.
+      pose proof (kstable_trans _ _ _ KS1 KS2) as KS.
+      set (sm := set_kern s k3).
+      assert (IM : InvE dA sm) by (apply InvE_kstable; assumption).
+      assert (PO : pipe_ok k2 (next_fd (kern s)) (next_fd (kern s) + 1)).
+      { split; [assumption|]. split; [lia|]. eexists _, _. split; [exact OR|]. split; [reflexivity|]. split; [reflexivity|].
+        split; [reflexivity|]. split; [exact OW|]. split; reflexivity. }
+      apply (rx_on_tail_ok s sm _ (next_fd (kern s)) (next_fd (kern s) + 1) IM EP AR0); try reflexivity; try assumption.
+      * constructor; reflexivity.
+      * right. subst sm. sp. apply (pipe_ok_kstable k2 k3 _ _ KS2 PO).
+      * subst sm. sp. rewrite (kt_ep _ _ KS). exact H3.
+      * apply RAWS. lia.
+      * apply Fr_set_kern. apply (kt_nwait _ _ KS).
+    + destruct PS as (_ & EM). rewrite (ms_emfile _ (ie_misc _ _ I) EP) in EM. discriminate.
+Qed.
+
+(* ---------- event_rx_off ---------- *)
+Lemma kick_remove : forall s s' k', InvE dA s -> is_epoll s = true -> active_ref s = 1 ->
+  kicksame s s' -> active_fd s' = active_fd s -> active_ref s' = 0 -> active_wr s' = -1 -> kern s' = k' ->
+  numobjs s' = numobjs s - 1 ->
+  kctl (kern s) k' -> ep k' = ep_remove (ep (kern s)) (active_fd s) ->
+  InvE dA s'.
+Proof.
+  intros s s' k' [A B C D E G H] EP AR1 KS AF AR AW KE NO KC EPK.
+  assert (EE : is_epoll s' = true) by (unfold is_epoll in *; rewrite (kk_method _ _ KS); assumption).
+  assert (LV : forall k0, live s' (-1) k0 <-> live s (-1) k0) by (intros; unfold live; rewrite (kk_fdt _ _ KS); tauto).
+  destruct (fv_kick _ _ A AR1) as (ek & Hek & Fek & Dek).
+  assert (OTH : forall e, In e (ep (kern s)) -> en_data e <> -1 -> en_fd e <> active_fd s).
+  { intros e He N Q. assert (e = ek) by (eapply nodup_fd_eq; [apply (fv_nodup _ _ A)|assumption|assumption|congruence]).
+    subst. contradiction. }
+  constructor.
+  - eapply FdInv_rebuild_ep with (s := s); try eassumption; try apply KS.
+    + intros k0. rewrite (kk_fdt _ _ KS). tauto.
+    + intros x. rewrite KE. apply (kctl_open _ _ _ KC).
+    + intros e He. rewrite KE, EPK in He. apply In_ep_rem in He. destruct He as [He NF].
+      unfold entry_ok. rewrite AF, AR, (kk_tfd _ _ KS), (kk_fdt _ _ KS).
+      destruct (fv_ent _ _ A e He) as [(L&Q)|[(_&Q&_)|Q]]; [left; split; [apply LV; assumption|exact Q]|contradiction|right; right; exact Q].
+    + intros k0 L R. apply LV in L. rewrite (kk_fdt _ _ KS) in *. destruct (fv_has _ _ A EP k0 L R) as (e & He & Q1 & Q2).
+      exists e. split; [|tauto]. rewrite KE, EPK. apply In_ep_rem. split; [assumption|].
+      apply OTH; [assumption|]. destruct L. lia.
+    + intros k0 L R. apply LV in L. rewrite (kk_fdt _ _ KS) in *. rewrite KE, EPK, ep_find_rem, (fv_none _ _ A EP k0 L R). reflexivity.
+    + rewrite KE, EPK. apply NoDup_fd_rem. apply (fv_nodup _ _ A).
+    + intros e He. rewrite KE, EPK in He. apply In_ep_rem in He. rewrite KE, (kctl_get _ _ _ KC). apply (fv_ealloc _ _ A). tauto.
+    + left. assumption.
+    + intros Q. rewrite AR in Q. discriminate.
+  - intros k0. apply sync_at_same with (s := s); [rewrite (kk_fdt _ _ KS); reflexivity|unfold is_epoll; rewrite (kk_method _ _ KS); reflexivity|rewrite (kk_notify _ _ KS); tauto|rewrite (kk_pfds _ _ KS); reflexivity|apply B].
+  - assert (FL : flt k' = flt (kern s)) by (destruct KC as (_&_&_&_&->); reflexivity).
+    destruct C. constructor; rewrite ?(kk_rr _ _ KS), ?(kk_rf _ _ KS), ?(kk_rwf _ _ KS), ?(kk_fdt _ _ KS), ?(kk_er _ _ KS),
+      ?(kk_tfd _ _ KS), ?KE, ?FL, ?AF, ?AR, ?AW; try assumption.
+    + intros j J. specialize (dy_kern j J). destruct (efd_raw s =? 0); [eapply pipe_ok_kctl|eapply evfd_ok_kctl]; eassumption.
+    + intros Q. discriminate.
+    + intros _. reflexivity.
+    + intros Q. discriminate.
+    + destruct dy_tfd as [T|(T & v & V1 & V2)]; [left; assumption|right]. split; [assumption|].
+      exists v. rewrite (kctl_get _ _ _ KC). tauto.
+    + intros e He Q. rewrite EPK in He. apply In_ep_rem in He. rewrite (kctl_open _ _ _ KC). apply (dy_tfdent e); tauto.
+  - rewrite (kk_heap _ _ KS). exact D.
+  - apply (TaskInv_same s); [apply KS..|exact E].
+  - destruct G as [G1 G2]. constructor.
+    + rewrite (kk_numfds _ _ KS), (kk_fdt _ _ KS). exact G1.
+    + rewrite NO, G2, (kk_numfds _ _ KS), (kk_heap _ _ KS), (kk_tasks _ _ KS), (kk_evc _ _ KS), AR, AR1.
+      unfold curl. rewrite (kk_cur _ _ KS). lia.
+  - destruct H as [H1 H2 H3 H4]. constructor.
+    + rewrite (kk_trace _ _ KS). assumption.
+    + rewrite (kk_method _ _ KS). assumption.
+    + rewrite KE. destruct KC as (_&_&_&_&->). intros _. apply H3. assumption.
+    + rewrite KE. eapply kctl_KInv; eassumption.
+Qed.
+
+Lemma do_close_set_numobjs : forall s fd n, set_numobjs (do_close s fd) n = do_close (set_numobjs s n) fd.
+Proof.
+  intros. unfold do_close. change (kern (set_numobjs s n)) with (kern s).
+  destruct (k_close (kern s) fd) as [k1 ok]. destruct ok; reflexivity.
+Qed.
+Lemma do_close_set_activewr : forall s fd w, set_activewr (do_close s fd) w = do_close (set_activewr s w) fd.
+Proof.
+  intros. unfold do_close. change (kern (set_activewr s w)) with (kern s).
+  destruct (k_close (kern s) fd) as [k1 ok]. destruct ok; reflexivity.
+Qed.
+Lemma do_close_fields : forall s fd, numobjs (do_close s fd) = numobjs s /\ active_wr (do_close s fd) = active_wr s /\
+  active_fd (do_close s fd) = active_fd s /\ active_ref (do_close s fd) = active_ref s.
+Proof. intros. unfold do_close. destruct (k_close (kern s) fd) as [k1 ok]. destruct ok; repeat split. Qed.
+
+Definition RxOffPost (s s' : core) : Prop :=
+  InvE dA s' /\ Fr s s' /\ active_ref s' = 0 /\ numobjs s' = numobjs s - 1 /\
+  ev_pending s' = ev_pending s /\ ev_batch s' = ev_batch s /\ ev_count s' = ev_count s /\
+  ev_reg s' = ev_reg s /\ use_raw s' = use_raw s /\ method s' = method s /\ rw_reg s' = rw_reg s.
+
+Lemma kick_facts : forall s, InvE dA s -> active_ref s = 1 ->
+  let afd := active_fd s in let awr := active_wr s in
+  1000 <= afd /\
+  (exists v, k_open (kern s) afd = Some v /\ (is_pipe v = true -> awr <> -1 /\ vpeer v = awr)) /\
+  (awr <> -1 -> exists vw, k_open (kern s) awr = Some vw /\ vpeer vw = afd) /\
+  (forall k0, registered (fdt s k0) = true -> fdnum (fdt s k0) <> afd /\ (awr <> -1 -> fdnum (fdt s k0) <> awr)) /\
+  (forall j, rw_reg s j = true -> rw_rfd s j <> afd /\ rw_wfd s j <> afd /\
+                                  (awr <> -1 -> rw_rfd s j <> awr /\ rw_wfd s j <> awr)).
+Proof.
+  intros s I AR afd awr. pose proof (ie_fd _ _ I) as FI. pose proof (ie_dyn _ _ I) as DI.
+  destruct (dy_act _ DI AR) as (X & (v & V1 & V2) & W). fold afd awr in X, V1, V2, W.
+  assert (PW : awr <> -1 -> pipe_ok (kern s) afd awr) by (destruct W; [contradiction|tauto]).
+  assert (RAW : forall j, rw_reg s j = true -> rw_rfd s j <> afd /\ rw_wfd s j <> afd /\
+                                  (awr <> -1 -> rw_rfd s j <> awr /\ rw_wfd s j <> awr)).
+  { intros j J. destruct (raw_facts dA s j I J) as (_ & _ & _ & _ & _ & _ & FA & KJ). cbv zeta in *.
+    destruct (FA AR) as (A1 & A2 & A3). fold afd awr in A1, A2, A3.
+    destruct (Z.eqb_spec (efd_raw s) 0) as [Z0|NZ].
+    - destruct (A3 Z0) as [A4 A5]. repeat split; congruence.
+    - destruct KJ as (_ & -> & _). repeat split; congruence. }
+  split; [assumption|]. split; [|split; [|split; [|exact RAW]]].
+  - exists v. split; [assumption|]. intros PK. destruct V2 as [(K & _)|(K & N)].
+    + unfold is_pipe in PK. rewrite K in PK. discriminate.
+    + split; [assumption|]. destruct (PW N) as (_ & _ & v0 & vw & O0 & _ & P0 & _). congruence.
+  - intros N. destruct (PW N) as (_ & _ & v0 & vw & _ & _ & _ & _ & OW & _ & PWW). exists vw. tauto.
+  - intros k0 R0. pose proof (fv_range _ _ FI k0 R0) as RG.
+    destruct (Z_lt_ge_dec k0 16) as [Lt|Ge].
+    + rewrite (fv_user _ _ FI k0) by lia. split; [lia|]. intros N. destruct (PW N) as (_ & Y & _). lia.
+    + assert (RR : rw_reg s (k0 - 16) = true).
+      { rewrite <- (dy_reg _ DI (k0 - 16)) by lia. replace (16 + (k0 - 16)) with k0 by lia. assumption. }
+      destruct (dy_obj _ DI _ RR) as (FN & _). replace (16 + (k0 - 16)) with k0 in FN by lia. rewrite FN.
+      destruct (RAW _ RR) as (A & _ & B). split; [assumption|]. intros N. apply B. assumption.
+Qed.
+
+Lemma event_rx_off_ok : forall s, InvE dA s -> is_epoll s = true -> active_ref s = 1 ->
+  okr (RxOffPost s) (event_rx_off s).
+Proof.
+  intros s I EP AR1. unfold event_rx_off.
+  destruct (kick_facts s I AR1) as (F1000 & (va & OA & PA) & PWF & K1 & K2). cbv zeta in *.
+  set (afd := active_fd s) in *. set (awr := active_wr s) in *.
+  destruct (ctl_retry_spec s CTL_DEL afd 0 (-1)) as (k' & CR & KC & EPK).
+  assert (PRES : ep_find (ep (kern s)) afd = true).
+  { destruct (fv_kick _ _ (ie_fd _ _ I) AR1) as (e & He & Fe & _). apply ep_find_In. exists e. tauto. }
+  assert (OPN : k_open (kern s) afd <> None) by congruence.
+  rewrite (ctl_pure_del (kern s) afd 0 (-1) OPN PRES) in *. cbn [fst snd] in *. rewrite CR.
+  sp. fold afd awr. rewrite AR1. change (1 - 1) with 0. cbn [Z.eqb].
+  set (s2 := set_activefd (set_kern s k') afd 0).
+  assert (KO : forall x, k_open k' x = k_open (kern s) x) by (intros; apply (kctl_open _ _ _ KC)).
+  (* the logical state: reference dropped, write end forgotten, object count decremented *)
+  assert (GEN : forall sA, kicksame s sA -> active_fd sA = afd -> active_ref sA = 0 -> active_wr sA = -1 ->
+            kern sA = k' -> numobjs sA = numobjs s - 1 -> Fr s sA ->
+            ev_pending sA = ev_pending s -> ev_batch sA = ev_batch s -> ev_reg sA = ev_reg s -> use_raw sA = use_raw s ->
+            forall sF, (awr = -1 -> sF = do_close sA afd) ->
+                       (awr <> -1 -> sF = do_close (do_close sA afd) awr) -> RxOffPost s sF).
+  { intros sA KS AF AR AW KE NO FA E1 E2 E3 E4 sF C1 C2.
+    assert (IA : InvE dA sA) by (apply (kick_remove s sA k' I EP AR1); assumption).
+    assert (UA : unref sA afd).
+    { split; [|split].
+      - intros k0 Q. rewrite (kk_fdt _ _ KS) in *. apply K1. assumption.
+      - intros j Q. rewrite (kk_rr _ _ KS) in Q. rewrite (kk_rf _ _ KS), (kk_rwf _ _ KS). destruct (K2 j Q) as (A & B & _). tauto.
+      - rewrite AR. discriminate. }
+    assert (PA' : forall v, k_open (kern sA) afd = Some v -> is_pipe v = true -> unrefR sA (vpeer v)).
+    { intros v O PK. rewrite KE, KO, OA in O. injection O as <-. destruct (PA PK) as [N ->]. split.
+      - intros j Q. rewrite (kk_rr _ _ KS) in Q. rewrite (kk_rf _ _ KS). destruct (K2 j Q) as (_ & _ & B). apply B. assumption.
+      - rewrite AR. discriminate. }
+    destruct (do_close_ok dA sA afd IA UA PA') as (I2 & F2 & C2' & G2 & O2 & B2). cbv zeta in *.
+    set (sB := do_close sA afd) in *.
+    assert (FIN : forall sX, InvE dA sX -> Fr sB sX -> coresame (set_kern sB (kern sX)) sX -> RxOffPost s sX).
+    { intros sX IX FX CX. unfold RxOffPost. split; [assumption|].
+      split; [eapply Fr_trans; [exact FA|]; eapply Fr_trans; eassumption|].
+      rewrite (cs_ar _ _ CX), (cs_numobjs _ _ CX), (cs_evp _ _ CX), (cs_evb _ _ CX), (cs_evc _ _ CX), (cs_evr _ _ CX),
+              (cs_ur _ _ CX), (cs_method _ _ CX), (cs_rr _ _ CX).
+      change (active_ref (set_kern sB (kern sX))) with (active_ref sB). change (numobjs (set_kern sB (kern sX))) with (numobjs sB).
+      change (ev_pending (set_kern sB (kern sX))) with (ev_pending sB). change (ev_batch (set_kern sB (kern sX))) with (ev_batch sB).
+      change (ev_count (set_kern sB (kern sX))) with (ev_count sB). change (ev_reg (set_kern sB (kern sX))) with (ev_reg sB).
+      change (use_raw (set_kern sB (kern sX))) with (use_raw sB). change (method (set_kern sB (kern sX))) with (method sB).
+      change (rw_reg (set_kern sB (kern sX))) with (rw_reg sB).
+      rewrite (cs_ar _ _ C2'), (cs_numobjs _ _ C2'), (cs_evp _ _ C2'), (cs_evb _ _ C2'), (cs_evc _ _ C2'), (cs_evr _ _ C2'),
+              (cs_ur _ _ C2'), (cs_method _ _ C2'), (cs_rr _ _ C2').
+      change (active_ref (set_kern sA (kern sB))) with (active_ref sA). change (numobjs (set_kern sA (kern sB))) with (numobjs sA).
+      change (ev_pending (set_kern sA (kern sB))) with (ev_pending sA). change (ev_batch (set_kern sA (kern sB))) with (ev_batch sA).
+      change (ev_count (set_kern sA (kern sB))) with (ev_count sA). change (ev_reg (set_kern sA (kern sB))) with (ev_reg sA).
+      change (use_raw (set_kern sA (kern sB))) with (use_raw sA). change (method (set_kern sA (kern sB))) with (method sA).
+      change (rw_reg (set_kern sA (kern sB))) with (rw_reg sA).
+      rewrite AR, NO, E1, E2, (kk_evc _ _ KS), E3, E4, (kk_method _ _ KS), (kk_rr _ _ KS). repeat split. }
+    destruct (Z.eq_dec awr (-1)) as [W|W].
+    - rewrite (C1 W). apply FIN; [assumption|apply Fr_refl|].
+      assert (Q : set_kern sB (kern sB) = sB) by (destruct sB; reflexivity). rewrite Q. cs_refl.
+    - rewrite (C2 W). fold sB.
+      assert (FDB : fdt sB = fdt s) by (rewrite (cs_fdt _ _ C2'); apply (kk_fdt _ _ KS)).
+      assert (UB : unref sB awr).
+      { split; [|split].
+        - intros k0 Q. rewrite FDB in *. apply K1; assumption.
+        - intros j Q. rewrite (cs_rr _ _ C2') in Q. change (rw_reg (set_kern sA (kern sB))) with (rw_reg sA) in Q.
+          rewrite (kk_rr _ _ KS) in Q. rewrite (cs_rf _ _ C2'), (cs_rwf _ _ C2').
+          change (rw_rfd (set_kern sA (kern sB))) with (rw_rfd sA). change (rw_wfd (set_kern sA (kern sB))) with (rw_wfd sA).
+          rewrite (kk_rf _ _ KS), (kk_rwf _ _ KS). destruct (K2 j Q) as (_ & _ & B). apply B. assumption.
+        - rewrite (cs_ar _ _ C2'). change (active_ref (set_kern sA (kern sB))) with (active_ref sA). rewrite AR. discriminate. }
+      assert (PB : forall v, k_open (kern sB) awr = Some v -> is_pipe v = true -> unrefR sB (vpeer v)).
+      { intros v O _. destruct (B2 awr v O) as (v0 & O0 & _ & P0). rewrite KE, KO in O0.
+        destruct (PWF W) as (vw & OW & PWW). rewrite OW in O0. injection O0 as <-. rewrite <- P0, PWW. split.
+        - intros j Q. rewrite (cs_rr _ _ C2') in Q. change (rw_reg (set_kern sA (kern sB))) with (rw_reg sA) in Q.
+          rewrite (kk_rr _ _ KS) in Q. rewrite (cs_rf _ _ C2'). change (rw_rfd (set_kern sA (kern sB))) with (rw_rfd sA).
+          rewrite (kk_rf _ _ KS). destruct (K2 j Q) as (A & _). exact A.
+        - rewrite (cs_ar _ _ C2'). change (active_ref (set_kern sA (kern sB))) with (active_ref sA). rewrite AR. discriminate. }
+      destruct (do_close_ok dA sB awr I2 UB PB) as (I3 & F3 & C3 & _). cbv zeta in *.
+      apply FIN; assumption. }
+  cbn [okr].
+  destruct (do_close_fields s2 afd) as (D1 & D2 & D3 & D4).
+  change (active_wr s2) with awr in D2. change (numobjs s2) with (numobjs s) in D1.
+  assert (FRA : forall w n, Fr s (set_numobjs (set_activewr s2 w) n)).
+  { intros w n. destruct KC as (_&_&_&NW&_). constructor; subst s2; sp; try reflexivity; try lia; try tauto. }
+  rewrite D2. destruct (Z.eqb_spec awr (-1)) as [W|W].
+  - rewrite D1, do_close_set_numobjs.
+    apply (GEN (set_numobjs s2 (numobjs s - 1))); try reflexivity; try assumption.
+    + constructor; reflexivity.
+    + destruct KC as (_&_&_&NW&_). constructor; subst s2; sp; try reflexivity; try lia; try tauto.
+    + intros N. contradiction.
+  - destruct (do_close_fields (do_close s2 afd) awr) as (D1' & _).
+    change (numobjs (set_activewr (do_close (do_close s2 afd) awr) (-1))) with (numobjs (do_close (do_close s2 afd) awr)).
+    rewrite D1', D1, do_close_set_activewr, do_close_set_numobjs, do_close_set_activewr, do_close_set_numobjs.
+    apply (GEN (set_numobjs (set_activewr s2 (-1)) (numobjs s - 1))); try reflexivity; try assumption.
+    + constructor; reflexivity.
+    + apply FRA.
+    + intros N. contradiction.
+Qed.
+
+End OffsetB.
+
+(* ---------- iv_event_register / iv_event_unregister ---------- *)
+Lemma InvE_fdcs : forall d d' s s', fdcs s s' -> trace s' = trace s -> heap s' = heap s -> tasks s' = tasks s ->
+  cur s' = cur s -> AcctD d' s' -> InvE d s -> InvE d' s'.
+Proof.
+  intros d d' s s' CS TR HP TK CU AC [A B C D E G H]. constructor.
+  - eapply FdInv_eq; [exact A|intros k; rewrite (fc_fdt _ _ CS); tauto|apply CS..].
+  - intros k. unfold sync_at, is_epoll. fc_rw CS. apply B.
+  - destruct C. constructor; unfold is_epoll; fc_rw CS; assumption.
+  - rewrite HP. exact D.
+  - apply (TaskInv_same s); assumption.
+  - exact AC.
+  - destruct H. constructor; unfold is_epoll; fc_rw CS; rewrite ?TR; assumption.
+Qed.
+
+Lemma AcctD_change : forall d d' s s', AcctD d s -> numfds s' = numfds s -> fdt s' = fdt s -> heap s' = heap s ->
+  tasks s' = tasks s -> cur s' = cur s -> active_ref s' = active_ref s ->
+  numobjs s' - ev_count s' - d' = numobjs s - ev_count s - d -> AcctD d' s'.
+Proof.
+  intros d d' s s' [A B] NF FD HP TK CU AR EQ. constructor.
+  - rewrite NF, FD. exact A.
+  - rewrite NF, HP, TK, AR. unfold curl. rewrite CU. unfold curl in B. lia.
+Qed.
+
+Lemma cnt_upd_true : forall f j, f j = false -> 0 <= j < 16 ->
+  cntf (upd f j true) (zseq 0 16) = cntf f (zseq 0 16) + 1.
+Proof.
+  intros f j F J. apply (cntf_flip f (upd f j true) _ j); [apply NoDup_zseq|apply In_zseq'; lia|assumption|apply upd_same|].
+  intros x N. symmetry. apply upd_other. assumption.
+Qed.
+Lemma cnt_upd_false : forall f j, f j = true -> 0 <= j < 16 ->
+  cntf f (zseq 0 16) = cntf (upd f j false) (zseq 0 16) + 1.
+Proof.
+  intros f j F J. apply (cntf_flip (upd f j false) f _ j); [apply NoDup_zseq|apply In_zseq'; lia|apply upd_same|assumption|].
+  intros x N. apply upd_other. assumption.
 Qed.
